@@ -38,12 +38,16 @@ func walk(e *updogv1.Query_Expression, f func(e *updogv1.Query_Expression) bool)
 	return true
 }
 
+// ReplacePlaceholders returns a copy of query in which every placeholder $n is replaced
+// by values[n-1]. A placeholder for which no value was provided is left in place; callers
+// that cannot rule this out need to compare the number of values with the highest
+// placeholder number beforehand.
 func ReplacePlaceholders(query *updogv1.Query, values []string) *updogv1.Query {
 	q := proto.Clone(query).(*updogv1.Query)
 
 	_ = Walk(q, func(e *updogv1.Query_Expression) bool {
 		if v, ok := e.Value.(*updogv1.Query_Expression_Eq); ok {
-			if v.Eq.Placeholder > 0 {
+			if v.Eq.Placeholder > 0 && int(v.Eq.Placeholder) <= len(values) {
 				v.Eq.Value = values[v.Eq.Placeholder-1]
 				v.Eq.Placeholder = 0
 			}
